@@ -243,7 +243,10 @@ def _check_shares(what, weights, got, floor, msg, slack=0):
             if wi > wj:
                 if gi < got[j] - slack:
                     raise Violation(f"{what}-monotone", f"{msg()}: a heavier weight got {gi}, a lighter one {got[j]}")
-            elif wi == wj and abs(gi - got[j]) > 1:
+            elif wi == wj and abs(gi - got[j]) > (1 if k <= 4 else 2):
+                # same rounding-aware reading as `dev` above: one item is rounded at a time, so up to half a unit
+                # of error per earlier item accumulates; from five weighted items on two equal weights at the two
+                # ends of the list can end up 2 apart ([3, .5, .5, .5, .5, 3] over 12 rows: 5 1 1 1 1 3)
                 raise Violation(f"{what}-equal-weights", f"{msg()}: equal weights got {gi} and {got[j]}")
     return remainder
 
